@@ -7,6 +7,7 @@ import (
 	"testing"
 
 	"github.com/paulsonkoly/chess-3/board"
+	"github.com/paulsonkoly/chess-3/chess"
 	"github.com/paulsonkoly/chess-3/debug"
 	"github.com/paulsonkoly/chess-3/move"
 
@@ -145,6 +146,8 @@ type frame struct {
 func (w *walker) line(b *board.Board, rng *rand.Rand, maxPlies int) {
 	var st []frame
 	prevNull := false
+	stopAt150 := rng.IntN(2) == 0
+	quiet := !stopAt150 && rng.IntN(2) == 0 // prefer reversible moves: long capture-free stretches
 	for ply := 0; ply < maxPlies; ply++ {
 		snap := b.VerifSnapshot()
 		if !prevNull && rng.IntN(6) == 0 && !b.InCheck(b.STM) {
@@ -156,10 +159,21 @@ func (w *walker) line(b *board.Board, rng *rand.Rand, maxPlies int) {
 		}
 		prevNull = false
 		legal := eng.Legal(b, w.ms)
-		if len(legal) == 0 || b.FiftyCnt >= 150 {
+		// make/undo symmetry does not depend on the game being over by rule: clocks run past 150
+		// (half of the lines), up to the line length
+		if len(legal) == 0 || (b.FiftyCnt >= 150 && stopAt150) {
 			break
 		}
 		m := legal[rng.IntN(len(legal))]
+		if quiet {
+			for try := 0; try < 8; try++ {
+				if b.SquaresToPiece[m.From()] != chess.Pawn && b.SquaresToPiece[m.To()] == chess.NoPiece {
+					break
+				}
+				m = legal[rng.IntN(len(legal))]
+			}
+		}
+		w.r.MaxCount("highest_halfmove_clock_in_a_line", int64(b.FiftyCnt))
 		// also make+undo a random pseudo-legal (maybe illegal) move at this level
 		ps := eng.Gen(b, w.ms)
 		x := ps[rng.IntN(len(ps))]
@@ -263,7 +277,7 @@ func TestCheck(t *testing.T) {
 		b := eng.MustBoard(&p)
 		w.path = w.path[:0]
 		w.start = p.FEN()
-		w.line(b, rng, 30+rng.IntN(370))
+		w.line(b, rng, 30+rng.IntN(570))
 		r.DistinctStr("line" + p.Key() + fmt.Sprint(i))
 		if i%400 == 0 {
 			r.Sample(map[string]any{"kind": "deep-line", "root": p.FEN()})
